@@ -1225,3 +1225,112 @@ def dissolve_method_objects(trees: dict[str, ast.Module]) -> int:
             n += 1
         ast.fix_missing_locations(t)
     return n
+
+
+# ----------------------------------------------------------------------------------------
+# S0: an extracted *search helper*
+#         def _find(self, xs, k):                       v = self._find(xs, k)          try: v = self._find(xs, k)
+#             for x in xs:                              if v is not None: USE(v)       except E: continue
+#                 try: return F(x, k)                                                  USE(v)
+#                 except E: pass / continue
+#             return None   /   raise E
+#     is put back where it is used:   for x in xs:  try: v = F(x, k)  except E: pass  else: USE(v); break
+
+def inline_search_helpers(trees: dict[str, ast.Module]) -> int:
+    n = 0
+    for t in trees.values():
+        helpers = {}
+        for c in [x for x in ast.walk(t) if isinstance(x, ast.ClassDef)] + [t]:
+            for f in c.body:
+                if not (isinstance(f, ast.FunctionDef) and f.name.startswith('_') and not f.name.startswith('__') and not f.decorator_list):
+                    continue
+                body = [s for s in f.body if not (isinstance(s, ast.Expr) and isinstance(s.value, ast.Constant))]
+                if len(body) != 2 or not isinstance(body[0], ast.For) or body[0].orelse:
+                    continue
+                lp, tail = body
+                if len(lp.body) != 1 or not isinstance(lp.body[0], ast.Try):
+                    continue
+                tr = lp.body[0]
+                if tr.orelse or tr.finalbody or len(tr.body) != 1 or not isinstance(tr.body[0], ast.Return) or tr.body[0].value is None or len(tr.handlers) != 1:
+                    continue
+                h = tr.handlers[0]
+                if not (len(h.body) == 1 and isinstance(h.body[0], (ast.Pass, ast.Continue)) and h.type is not None and h.name is None):
+                    continue
+                etype = _dotted(h.type)
+                mode = None
+                if isinstance(tail, ast.Return) and (tail.value is None or (isinstance(tail.value, ast.Constant) and tail.value.value is None)):
+                    mode = 'none'
+                elif isinstance(tail, ast.Raise) and tail.exc is not None and (_dotted(tail.exc.func if isinstance(tail.exc, ast.Call) else tail.exc) == etype):
+                    mode = 'raise'
+                if mode is None:
+                    continue
+                helpers[f.name] = (c, f, lp, tr, h, mode, etype)
+        if not helpers:
+            continue
+        for owner in list(ast.walk(t)):
+            for fld in ('body', 'orelse', 'finalbody'):
+                blk = getattr(owner, fld, None)
+                if not (isinstance(blk, list) and blk and isinstance(blk[0], ast.stmt)):
+                    continue
+                for i, st in enumerate(list(blk)):
+                    call = None
+                    target = None
+                    rest_start = None
+                    use_body = None
+                    if isinstance(st, ast.Try) and len(st.body) == 1 and isinstance(st.body[0], ast.Assign) and isinstance(st.body[0].value, ast.Call) \
+                            and len(st.handlers) == 1 and not st.orelse and not st.finalbody and len(st.handlers[0].body) == 1 \
+                            and isinstance(st.handlers[0].body[0], ast.Continue):
+                        call, target = st.body[0].value, st.body[0].targets[0]
+                        form = 'raise'
+                        use_body = blk[i + 1:]
+                        rest_start = i + 1
+                    elif isinstance(st, ast.Assign) and isinstance(st.value, ast.Call) and i + 1 < len(blk) and isinstance(blk[i + 1], ast.If) \
+                            and not blk[i + 1].orelse and isinstance(blk[i + 1].test, ast.Compare) and isinstance(blk[i + 1].test.ops[0], ast.IsNot) \
+                            and isinstance(blk[i + 1].test.comparators[0], ast.Constant) and blk[i + 1].test.comparators[0].value is None \
+                            and isinstance(blk[i + 1].test.left, ast.Name) and isinstance(st.targets[0], ast.Name) \
+                            and blk[i + 1].test.left.id == st.targets[0].id and i + 2 == len(blk):
+                        call, target = st.value, st.targets[0]
+                        form = 'none'
+                        use_body = blk[i + 1].body
+                    if call is None or not isinstance(target, ast.Name):
+                        continue
+                    hname = call.func.attr if isinstance(call.func, ast.Attribute) else (call.func.id if isinstance(call.func, ast.Name) else None)
+                    if hname not in helpers:
+                        continue
+                    c, f, lp, tr, h, mode, etype = helpers[hname]
+                    if mode != form:
+                        continue
+                    if form == 'raise' and _dotted(st.handlers[0].type) != etype:
+                        continue
+                    uses = sum(1 for tt in trees.values() for x in ast.walk(tt)
+                               if (isinstance(x, ast.Attribute) and x.attr == hname) or (isinstance(x, ast.Name) and x.id == hname))
+                    if uses != 1:
+                        continue
+                    if any(isinstance(x, (ast.Break, ast.Continue, ast.Return)) for s in use_body for x in ast.walk(s)):
+                        continue
+                    b = _bind_call(f, call, skip_self=isinstance(c, ast.ClassDef))
+                    if b is None or not all(isinstance(v, (ast.Name, ast.Attribute, ast.Constant)) for v in b.values()):
+                        continue
+                    if isinstance(c, ast.ClassDef) and isinstance(call.func, ast.Attribute):
+                        b[f.args.args[0].arg] = call.func.value
+                    sub = _SubstNames(b)
+                    expr = sub.visit(copy.deepcopy(tr.body[0].value))
+                    new_try = ast.Try(body=[ast.Assign(targets=[ast.Name(id=target.id, ctx=ast.Store())], value=expr)],
+                                      handlers=[ast.ExceptHandler(type=copy.deepcopy(h.type), name=None, body=[ast.Pass()])],
+                                      orelse=list(use_body) + [ast.Break()], finalbody=[])
+                    new_loop = ast.For(target=copy.deepcopy(lp.target), iter=sub.visit(copy.deepcopy(lp.iter)), body=[new_try], orelse=[], type_comment=None)
+                    ast.copy_location(new_loop, st)
+                    for y in ast.walk(new_loop):
+                        if isinstance(y, (ast.stmt, ast.expr, ast.ExceptHandler)) and not hasattr(y, 'lineno'):
+                            ast.copy_location(y, st)
+                    if form == 'raise':
+                        blk[i:] = [new_loop]
+                    else:
+                        blk[i:i + 2] = [new_loop]
+                    if f in c.body:
+                        c.body.remove(f)
+                    del helpers[hname]
+                    n += 1
+                    break
+        ast.fix_missing_locations(t)
+    return n
